@@ -1136,7 +1136,9 @@ class LinkAccessor(WritableAccessor[T_co], PhysicalAccessor[T_co]):
                 parent = ref.getparent()
                 if parent is None:
                     continue
-                obj._model._loader.idcache_remove(ref)
+                with contextlib.suppress(ValueError):
+                    # already detached together with a deleted ancestor
+                    obj._model._loader.idcache_remove(ref)
                 parent.remove(ref)
             except Exception:
                 LOGGER.exception("Cannot purge dangling ref object %r", ref)
